@@ -688,7 +688,21 @@ def _null_try(src, exp):
     return {"input": src, "expected": [list(r) for r in exp], "observed": [list(r) for r in rows] if ok2 else "sqlite error: %s" % rows, "failing": (not ok2) or rows != exp, "replay_kind": "null_rows", "sql": sql}
 
 
+# replay for BETWEEN (NP6*): a range test written through a function that uses its argument twice (the only way to get the SAME expression on both sides)
+BETWEEN_CASES = [
+    ("let within = lo hi v -> (v <= hi && v >= lo)\nfrom t\nfilter (within 2 6 id)\nselect {id}\nsort id\n", [(2,), (3,), (4,)]),
+    ("let within = lo hi v -> (v >= lo && v <= hi)\nfrom t\nfilter (within 2 6 id)\nselect {id}\nsort id\n", [(2,), (3,), (4,)]),
+    ("from t\nfilter (id | in 2..3)\nselect {id}\nsort id\n", [(2,), (3,)]),
+    ("let outside = lo hi v -> (v >= hi && v <= lo)\nfrom t\nfilter (outside 2 3 id)\nselect {id}\nsort id\n", []),
+]
+
+
 def replay(failure):
+    if "NP6" in failure.get("obligation", "") or "try_into_between" in failure.get("obligation", ""):
+        for src, exp in BETWEEN_CASES:
+            r = _null_try(src, exp)
+            if r["failing"]:
+                return r
     if "NP5" in failure.get("obligation", "") or "process_null" in failure.get("obligation", ""):
         for src, exp in NULL_CASES:
             r = _null_try(src, exp)
